@@ -119,8 +119,7 @@ type gen struct {
 	lockSiteOrd map[interface{}]int
 	inPanicExit bool
 	inlineDepth int
-	rangeIters  map[*ssa.Range]int
-	iterFacts   map[int][3]string
+	iters       map[*ssa.Range]*iterInfo
 }
 
 func (g *gen) errorf(format string, args ...interface{}) {
